@@ -103,7 +103,15 @@ func parseHarnessOutput(out string, r *BoundedResult) {
 			if len(parts) > 1 {
 				f.Detail = strings.TrimSpace(parts[1])
 			}
-			r.Failures = append(r.Failures, f)
+			dup := false
+			for _, g := range r.Failures {
+				if g.Key == f.Key {
+					dup = true // one report per key; the harness prints a few instances of each
+				}
+			}
+			if !dup {
+				r.Failures = append(r.Failures, f)
+			}
 		case strings.HasPrefix(line, "GOCV-SAMPLE "):
 			if len(r.Samples) < 8 {
 				var v any
